@@ -125,7 +125,7 @@ func runC13(c *Ctx) {
 					cp := *sks[i].scope
 					// (by value or by pointer: how a scope is held is not content - decided afresh in every build, except
 					// in the contents whose scopes are edited after filing, below)
-					if (n%4 != 2 && c.Rng.Intn(2) == 0) || (n%4 == 2 && n%3 == 1 && len(sks[i].key)%2 == 0) {
+					if (n%4 < 2 && c.Rng.Intn(2) == 0) || (n%4 == 2 && n%3 == 1 && len(sks[i].key)%2 == 0) {
 						ac.SigningKeys.AddScopedSigner(cp) // held by value
 					} else {
 						ac.SigningKeys.AddScopedSigner(&cp)
@@ -140,6 +140,20 @@ func runC13(c *Ctx) {
 			if n%4 == 2 && len(filed) >= 2 {
 				sort.Slice(filed, func(i, j int) bool { return filed[i].Key < filed[j].Key })
 				filed[0].Key, filed[1].Key = filed[1].Key, filed[0].Key
+			}
+			// ... or the scope with the smallest key is re-keyed to a PLAIN key of the same set (two entries of the set then write
+			// the same key into the token): the same edit in every build
+			if n%4 == 3 && len(filed) >= 1 {
+				plain := ""
+				for _, e := range sks {
+					if e.scope == nil && (plain == "" || e.key < plain) {
+						plain = e.key
+					}
+				}
+				if plain != "" {
+					sort.Slice(filed, func(i, j int) bool { return filed[i].Key < filed[j].Key })
+					filed[0].Key = plain
+				}
 			}
 			for _, i := range permute(c.Rng, len(revs)) {
 				ac.RevokeAt(revs[i].k, time.Unix(revs[i].v.(int64), 0))
@@ -568,6 +582,49 @@ func runC14(c *Ctx) {
 			}
 			distinct[fmt.Sprint("ss-token", fi)] = true
 			c.count("scoped_from_token")
+		}
+		// ... and the other way round: a member that IS there, however little it says - a response permission with no
+		// budget and no time (servers read it as "responses allowed, default budget"), a list that is present and
+		// empty - is a permission of the user's own: such a user is not one a scope accepts
+		for fi, form := range []map[string]interface{}{
+			{"resp": map[string]interface{}{}}, {"resp": map[string]interface{}{"max": 0, "ttl": 0}}, {"resp": map[string]interface{}{"max": 0}},
+			{"pub": map[string]interface{}{"allow": []string{}}}, {"sub": map[string]interface{}{"deny": []string{}}},
+		} {
+			var m map[string]interface{}
+			if err := json.Unmarshal(pj, &m); err != nil {
+				panic(err)
+			}
+			nats := m["nats"].(map[string]interface{})
+			for k, v := range form {
+				nats[k] = v
+			}
+			pj2, _ := json.Marshal(m)
+			tok := forge(string(hj), string(pj2), "v2", scopeKp).Token
+			inp := map[string]interface{}{"kind": "user", "arrived_as": "token", "members_present_but_minimal": form, "token": tok}
+			c.sum.Evaluations++
+			c.sum.ImplChecks++
+			for _, dec := range []string{"Decode", "DecodeUserClaims"} {
+				var cl jwt.Claims
+				var err error
+				if dec == "Decode" {
+					cl, err = jwt.Decode(tok)
+				} else {
+					cl, err = jwt.DecodeUserClaims(tok)
+				}
+				if err != nil {
+					continue
+				}
+				if us.ValidateScopedSigner(cl) == nil {
+					inp["decoder"] = dec
+					c.violation("C14: a scope accepts a user claim that carries a permission of its own (a member that is present, if minimal)", inp)
+				}
+				if u, ok := cl.(*jwt.UserClaims); ok && u.HasEmptyPermissions() {
+					inp["decoder"] = dec
+					c.violation("C14: a user decoded from a token that spells out a permission member (present, if minimal) reports no permissions of its own", inp)
+				}
+			}
+			distinct[fmt.Sprint("ss-token-present", fi)] = true
+			c.count("scoped_from_token_with_minimal_members")
 		}
 	}
 	// 3. IssueUserJWT
